@@ -55,16 +55,29 @@ def handle (args : List Sexp) : String :=
       | none => "(nospec)"
     | _, _ => "(error bad-request)"
   -- `sort(list, function(x, y) <x op y>)`: the merge sort of `core::sort` on the named relation
+  -- with typed parameters `function(x: T, y: T)` the relation is named `<op>:<T>`: the items are
+  -- coerced to the parameter type before the body is evaluated (`FeelType::coerced`, fix 2be8c70)
   | [.atom "sort", .atom rel, l] =>
-    let p? : Option (Value → Value → Bool) := match rel with
+    let (rel, ty?) : String × Option FType := match rel.splitOn ":" with
+      | [r, "number"] => (r, some .number)
+      | [r, "string"] => (r, some .string)
+      | [r, "boolean"] => (r, some .boolean)
+      | [r, "Any"] => (r, some .any)
+      | _ => (rel, none)
+    let co : Value → Value := match ty? with
+      | some t => Value.coerced t
+      | none => id
+    let p0? : Option (Value → Value → Bool) := match rel with
       | "lt" => some (fun x y => isT (Value.ltV x y))
       | "gt" => some (fun x y => isT (Value.gtV x y))
       | "le" => some (fun x y => isT (Value.leV x y))
+      | "ge" => some (fun x y => isT (Value.geV x y))
       | "ne" => some (fun x y => isT (Value.nqV x y))
       | "eq" => some (fun x y => isT (Value.eqV x y))
       | "true" => some (fun _ _ => true)
       | "false" => some (fun _ _ => false)
       | _ => none
+    let p? : Option (Value → Value → Bool) := p0?.map (fun p x y => p (co x) (co y))
     match p?, valueOfSexp l with
     | some p, some (.list xs) => toString (Sexp.list [.atom "ok", sexpOfValue (.list (mergeSort p xs))])
     | _, _ => "(error bad-request)"
